@@ -1,0 +1,72 @@
+//! Verification hooks, only compiled with `--cfg libtw2_verif`.
+//!
+//! Plain-data views of the otherwise private connection state, so that an
+//! external explorer can branch from, deduplicate and compare real
+//! implementation states. Timers are rendered relative to a given `now`.
+
+use crate::Timeout;
+use crate::Timestamp;
+
+/// Microseconds from `now` until the timeout triggers, saturating at 0.
+/// `None` for an inactive timeout.
+pub fn rel(timeout: Timeout, now: Timestamp) -> Option<u64> {
+    timeout.to_opt().map(|t| {
+        t.as_usecs_since_epoch()
+            .saturating_sub(now.as_usecs_since_epoch())
+    })
+}
+
+#[derive(Clone, Debug, Default, Eq, Hash, PartialEq)]
+pub struct PacketView {
+    pub num_chunks: u8,
+    pub data: Vec<u8>,
+}
+
+#[derive(Clone, Debug, Default, Eq, Hash, PartialEq)]
+pub struct ResendView {
+    pub next_send: Option<u64>,
+    pub sequence: u16,
+    pub data: Vec<u8>,
+}
+
+#[derive(Clone, Debug, Default, Eq, Hash, PartialEq)]
+pub struct OnlineView {
+    pub ack: u16,
+    pub sequence: u16,
+    pub request_resend: bool,
+    pub packet: PacketView,
+    pub packet_nonvital: PacketView,
+    /// Most recently sent chunk first, like the real queue.
+    pub resend_queue: Vec<ResendView>,
+}
+
+#[derive(Clone, Debug, Default, Eq, Hash, PartialEq)]
+pub struct ConnView {
+    /// Discriminant of the state enum, in declaration order.
+    pub state: u8,
+    /// Name of the state, for traces.
+    pub state_name: &'static str,
+    /// 0.6: `Some(Some(t))` if a token was fixed, `Some(None)` if the state
+    /// knows that no token is used, `None` if the state has no token slot.
+    /// 0.7: `Some(Some(own_token))` / `None`.
+    pub own_token: Option<Option<[u8; 4]>>,
+    /// 0.7 only: the token put into outgoing packets.
+    pub their_token: Option<[u8; 4]>,
+    pub online: Option<OnlineView>,
+    pub send: Option<u64>,
+}
+
+#[derive(Clone, Debug, Eq, Hash, PartialEq)]
+pub struct PeerView<A> {
+    pub pid: u32,
+    pub addr: A,
+    pub token: bool,
+    pub conn: ConnView,
+}
+
+#[derive(Clone, Debug, Eq, Hash, PartialEq)]
+pub struct NetView<A> {
+    pub peers: Vec<PeerView<A>>,
+    pub next_peer_id: u32,
+    pub accept_connections: bool,
+}
